@@ -619,6 +619,15 @@ pub fn gen_reply_program(id: &str, tape: Vec<u32>, opts: &GenOpts, any_order: bo
                 let s = mkm(t, ReplyOn::Success, "ok", &mut used_method_names);
                 let e = mkm(t, ReplyOn::Error, "err", &mut used_method_names);
                 let err_first = any_order && t.chance(50);
+                // mixed markers: one method takes a typed `Binary` payload, the other marks the
+                // same parameter `#[sv::payload(raw)]` (the builder's input must reach both)
+                let (mut s, mut e) = (s, e);
+                if t.chance(12) {
+                    let typed = Payload::Typed(vec![Arg { name: "blob".into(), ty: Ty::Binary, attrs: vec![] }]);
+                    let raw_on_success = t.chance(50);
+                    s.reply.as_mut().unwrap().payload = if raw_on_success { Payload::Raw } else { typed.clone() };
+                    e.reply.as_mut().unwrap().payload = if raw_on_success { typed } else { Payload::Raw };
+                }
                 let (s, e) = if s.name == hnames[0] && s.reply.as_ref().unwrap().handlers.is_empty() {
                     // the success method took the implicit name: the error one must name it explicitly
                     (s, Method { reply: Some(ReplySpec { handlers: hnames.clone(), ..e.reply.clone().unwrap() }), ..e })
